@@ -19,6 +19,7 @@ func propC15(c *Ctx) propInfo {
 	c.sendPipeline()
 	c.seedRules()
 	c.walletDataLayouts()
+	c.wholeCellValues("E14.codec-engine")
 	return propInfo{
 		explanation: "Static structural clauses of C15: (E15 config-flow) every parameter of GenerateStateInit / GenerateWalletAddress / New reaches newWallet through the matching With* option, every option closure writes its own Options field, every constructor copies the options it is documented to use into the wallet struct, and every data-cell literal is built from exactly those fields (so key, version, workchain, sub-wallet id and network id are live in the hashed state-init); (address unity) every address API reaches generateAddress(w.workchain, own generateStateInit()) and the common generateAddress puts the state-init hash and the workchain into the id; Wallet.address is written only by New. (NextMessageParams) finite-domain evaluation over the four account statuses: for nonexist and uninit every reachable return carries a state-init from generateStateInit, for active none does and (seqno wallets) the seqno comes from the decoded on-chain data of the same data type the wallet marshals. (send pipeline) SendV2 forwards params.Seqno/params.Init and asks for the state of its own address; RawSendV2 addresses the message to w.address, attaches the init it was given, sends the serialised external message and returns nil after a confirmation wait only on the newSeqno > seqno edge. (seed) SeedToPrivateKey succeeds only through the version-byte test. (layouts) data-cell layouts equal the wallet contracts' storage layouts in spec/tlb_layouts.spec. Error discipline of package wallet (E2). NOT decided: address inequality for different inputs (hash collision freedom), the timing of the polling loop.",
 		assumptions: []string{"SHA-256 / ed25519 / pbkdf2 behave as documented", "the embedded contract code strings are the published ones (not checked)"},
@@ -168,6 +169,29 @@ func (c *Ctx) walletConfigFlow() {
 	for _, k := range ctor {
 		c.literalIs(R, c.mustFn(R, "wallet", k.fn), k.typ, 1, k.want)
 	}
+	c.subWalletSiblings(R)
+	// 4c. wallet implementations are immutable after construction
+	impl := map[string]string{"wallet.walletV1V2": "newWalletV1V2", "wallet.walletV3": "newWalletV3", "wallet.walletV4": "newWalletV4", "wallet.walletHighloadV2": "newWalletHighloadV2", "wallet.walletV5Beta": "NewWalletV5Beta", "wallet.walletV5R1": "NewWalletV5R1"}
+	nImm := 0
+	for _, f := range c.moduleFuncs("wallet") {
+		allInstrs(f, func(_ *ssa.BasicBlock, in ssa.Instruction) {
+			st, ok := in.(*ssa.Store)
+			if !ok {
+				return
+			}
+			tn, fld, ok := fieldOf(st.Addr)
+			if !ok {
+				return
+			}
+			ctor, isImpl := impl[tn]
+			if !isImpl {
+				return
+			}
+			nImm++
+			c.check(f.Name() == ctor, R, fnName(f)+" writes "+tn+"."+fld, st.Pos(), "constructor", fnName(f)+" modifies "+tn+"."+fld+" after construction: the wallet implementations are values fixed at construction (a cached or shared state-init/address can be changed by one caller for all others)")
+		})
+	}
+	c.check(nImm >= 19, R, "wallet implementation structs are written only by their constructors", 0, fmt.Sprintf("%d field stores, all in constructors", nImm), fmt.Sprintf("only %d constructor field stores found (19 confirmed)", nImm))
 	// 5. data literals
 	data := []struct {
 		recv, typ string
@@ -230,7 +254,7 @@ func (c *Ctx) walletConfigFlow() {
 		}
 		c.check(okM, R, "the data cell is the marshalled data argument", f.Pos(), "tlb.Marshal(dataCell, data)", "generateStateInit no longer marshals its data argument into the data cell")
 	}
-	c.floor(R, 41)
+	c.floor(R, 60)
 }
 
 func vals2leaves(vs []ssa.Value) string {
@@ -624,4 +648,25 @@ func (c *Ctx) walletDataLayouts() {
 		return strings.HasPrefix(k, "wallet.Data") || k == "wallet.WalletV5ID"
 	})
 	c.floor("E3b.layout=spec", 7)
+}
+
+// subWalletSiblings: the three constructors that take a sub-wallet id compute it the same way.
+func (c *Ctx) subWalletSiblings(R string) {
+	var trees []string
+	for _, k := range []struct{ fn, typ string }{{"newWalletV3", "walletV3"}, {"newWalletV4", "walletV4"}, {"newWalletHighloadV2", "walletHighloadV2"}} {
+		if f := c.mustFn(R, "wallet", k.fn); f != nil {
+			for _, m := range literalFields(f, k.typ) {
+				for _, v := range m["subWalletID"] {
+					trees = append(trees, k.fn+": "+opTree(v, 0))
+				}
+			}
+		}
+	}
+	same := len(trees) == 3
+	for _, t := range trees {
+		if t[strings.Index(t, ": "):] != trees[0][strings.Index(trees[0], ": "):] {
+			same = false
+		}
+	}
+	c.check(same, R, "v3, v4 and highload compute the sub-wallet id identically", 0, strings.Join(trees, " | "), "the constructors of v3, v4 and highload wallets no longer compute the sub-wallet id by the same expression: "+strings.Join(trees, " | ")+" (an explicitly requested id must be used as is; only the default depends on the workchain)")
 }
